@@ -54,7 +54,7 @@ class Ctx:
     # ------------------------------------------------------------------ TLC
     def tlc(self, module, constants, invariants=(), spec="Spec", constraint=None, workers=8, timeout=900,
             emit_to=None, simulate=None, deadlock=False, extra_cfg="", env_extra=None, properties=(), postcondition=None,
-            view=None, label=None):
+            view=None, label=None, trace_run=False):
         """Runs TLC on spec/<module>.tla with a generated config.  Returns a dict of statistics.
         Lines printed as <<"CASE", json>> are written (deduplicated) to emit_to as ndjson."""
         self.nseq += 1
@@ -113,10 +113,10 @@ class Ctx:
         elif "Error:" in out and "is violated" in out:
             st["spec_violation"] = re.search(r"Error: (.*is violated.*)", out).group(1)
             st["counterexample"] = extract_trace(out)
-        elif re.search(r"^Error: ", out, re.M) and not simulate:
+        elif re.search(r"^Error: ", out, re.M) and not simulate and not trace_run:
             sys.stderr.write(out[-4000:])
             raise ToolError("TLC error on %s, see %s" % (module, outpath))
-        elif "generated" not in st and not simulate:
+        elif "generated" not in st and not simulate and not trace_run:
             sys.stderr.write(out[-4000:])
             raise ToolError("TLC produced no statistics on %s" % module)
         st["actions"] = parse_coverage(out)
@@ -134,7 +134,7 @@ class Ctx:
                         f.write(js + "\n")
                         n += 1
             st["cases"] = n
-        if "generated" in st:
+        if "generated" in st and not trace_run:
             self.states += st["distinct"]
             self.transitions += st["generated"]
         self.tlc_runs.append({k: v for k, v in st.items() if k not in ("out", "counterexample")})
@@ -193,6 +193,36 @@ class Ctx:
             self.violation(mm["detail"], mm.get("case"), cmd=cmd, mode=mode)
         rep["n_reported"] = rep.get("n_mismatch", 0)
         return rep
+
+    # ------------------------------------------------------------------ trace validation (impl -> spec)
+    def validate_trace(self, module, trace, constants=None, invariants=(), what="trace", timeout=600):
+        """Validates one recorded implementation trace (ndjson) against a Trace*/Abs* specification with TLC.
+        Returns (accepted, info).  A rejected trace becomes a violation carrying the first unmatched event."""
+        n_events = sum(1 for _ in open(trace))
+        st = self.tlc(module, constants or {}, invariants=list(invariants), postcondition="Accepted", workers=1, timeout=timeout,
+                      env_extra={"TRACE": trace}, label=module, trace_run=True)
+        out = open(st["out"], errors="replace").read()
+        m = re.search(r'<<"CONFIRMED", (\d+)>>', out)
+        if m:
+            self.classes["trace_confirmations"] = self.classes.get("trace_confirmations", 0) + int(m.group(1))
+        rej = re.search(r'<<"REJECTED at event", (\d+), (.*)>>', out)
+        ok = ("Model checking completed. No error has been found" in out) and not rej and not st.get("spec_violation")
+        if ok:
+            self.traces += 1
+            self.classes["trace_events"] = self.classes.get("trace_events", 0) + n_events
+            if len(self.samples) < 6:
+                self.samples.append({"validated_trace": what, "module": module, "events": n_events, "first_events": [json.loads(l) for l in open(trace).readlines()[:3]]})
+        else:
+            at = int(rej.group(1)) if rej else None
+            lines = open(trace).readlines()
+            ctx_ev = [json.loads(l) for l in lines[max(0, (at or 1) - 4):(at or 1)]] if at else []
+            detail = "%s: trace of %d events rejected by %s at event %s: %s" % (what, n_events, module, at, (rej.group(2)[:400] if rej else (st.get("spec_violation") or out[-600:])))
+            self.violation(detail, {"k": "trace", "module": module, "trace_file": trace, "rejected_at": at, "last_events": ctx_ev}, cmd="trace", mode=module)
+            # keep the trace next to the replay files
+            keep = os.path.join(VERIF, "replays", "%s-%s.ndjson" % (self.prop, module))
+            os.makedirs(os.path.dirname(keep), exist_ok=True)
+            shutil.copy(trace, keep)
+        return ok
 
     # ------------------------------------------------------------------ results
     def violation(self, detail, case=None, cmd=None, mode=None, sig=None):
